@@ -3,7 +3,10 @@ import Frugal.Proofs.DepthProps
 import Frugal.Proofs.DecodeRefine
 import Frugal.Proofs.DepthBound
 import Frugal.Proofs.DecodeSafe
-import Frugal.Props.Instances
+import Frugal.Props.Inst.Params
+import Frugal.Props.Inst.F_facts_recursionDiscipline
+import Frugal.Props.Inst.F_valid_depth
+import Frugal.Props.Inst.F_skeleton_decoder
 namespace Frugal.C15
 open Frugal
 theorem recursion_discipline : Generated.facts.recursionDiscipline = true := Instances.facts_recursionDiscipline
@@ -64,4 +67,10 @@ theorem deep_unknown_is_depth_error (v : TVal) (r : Bytes) (hw : wf v = true)
   rw [skipType_ser Instances.params_valid v _ r hw]
   have : ¬ skipNeed v ≤ Generated.params.skipDepth := by omega
   simp [this]
+/-- the theorems above that speak of `decodeM` / the reference reader are about the hand-written model
+    of `Decode` / `decodeType` / `decodeStringNoCopy` / `decodeFixedSizeTypes` / `skipUnknown`
+    (Decode.lean), written from exactly this control structure of the code (regenerated fingerprint) -/
+theorem decoder_model_written_from_this_code : Generated.facts.decoderSkeleton = Skeleton.decoder :=
+  Instances.skeleton_decoder
+
 end Frugal.C15
